@@ -125,7 +125,8 @@ func classifyDeath(stderr string, timedOut bool) (died, op string) {
 }
 
 // run executes one job on this worker (restarting it when needed).
-func (w *worker) run(p *pool, j *job) {
+func (w *worker) run(p *pool, j *job, limit time.Duration) {
+	j.died, j.diedOp, j.res = "", "", Result{}
 	if w.cmd == nil {
 		if err := w.start(); err != nil {
 			j.died = "crash:cannot-start-worker " + err.Error()
@@ -158,7 +159,7 @@ func (w *worker) run(p *pool, j *job) {
 	var got rd
 	select {
 	case got = <-ch:
-	case <-time.After(10 * time.Second):
+	case <-time.After(limit):
 		timedOut = true
 		w.cmd.Process.Kill()
 		got = <-ch
@@ -194,7 +195,7 @@ func (p *pool) runAll(jobs []*job) {
 		go func(w *worker) {
 			defer wg.Done()
 			for j := range ch {
-				w.run(p, j)
+				w.run(p, j, caseTimeout)
 			}
 		}(w)
 	}
@@ -203,7 +204,16 @@ func (p *pool) runAll(jobs []*job) {
 	}
 	close(ch)
 	wg.Wait()
+	// a timeout under a loaded machine is not a hang: re-run those cases alone with a long limit
+	for _, j := range jobs {
+		if j.died == "timeout" {
+			p.ws[0].run(p, j, hangRecheck)
+		}
+	}
 }
+
+const caseTimeout = 10 * time.Second
+const hangRecheck = 40 * time.Second
 
 func (p *pool) close() {
 	for _, w := range p.ws {
